@@ -128,7 +128,8 @@ Proof.
   2:{ rewrite default_html_src_eq. split; [reflexivity|]. split; [discriminate|]. left. reflexivity. }
   destruct (build_total [] (parse t')) as [t [Ht _]]. pose proof (build_binv _ _ _ Ht) as B.
   destruct (strip_root_ok t B) as [st [croot [Hst [Hroot Hvalid]]]].
-  unfold tokenize_src. rewrite feed_src_eq by apply binv_init. rewrite Ht. cbn [bind].
+  unfold tokenize_src. change (clear_src (tree_init_src []) []) with (init_tree []).
+  rewrite feed_src_eq by apply binv_init. rewrite Ht. cbn [bind].
   rewrite strip_src_inplace. cbn [t_cells t_outmost]. rewrite Hst. cbn [bind].
   unfold o_children. rewrite !Hroot. cbn [bind].
   assert (Htok : tokenize parse t' [] = Ok t) by exact Ht.
